@@ -53,11 +53,12 @@ CONFIG["C05"] = dict(
          "non-zero byte at each position, on-curve points outside the subgroup built by the model (E1 and E2, torsion and full order), single-bit flips, "
          "every compressed prefix byte; outcome class and re-encoded bytes compared with the Lean codec model; Equal round trip evaluated on the implementation",
     trusted_base=COMMON_TB + ["modelled, not verified: BLST field/curve arithmetic and subgroup checks, crypto/elliptic, crypto/ecdh, btcec (compared on the generated catalogue)"],
-    technique="Lean 4 proof (accepts-iff / canonical / round-trip theorems for scalar, raw-point and compressed BLS point codecs, primality by Pratt certificates) + differential run of codec model vs real decoders",
+    technique="Lean 4 proof (accepts-iff / canonical / round-trip theorems for scalar, raw-point, compressed BLS point and compressed ECDSA point codecs, primality by Pratt certificates) + differential run of codec model vs real decoders",
     level_text="Theorems for all byte strings: BLS and ECDSA private-key decoders and the raw ECDSA public-key decoder accept exactly the canonical encodings and re-encode to the input. "
                "BLS signatures (E1_read_bytes) and public keys (E2_read_bytes + G2 check): accepted = canonical compressed encodings of reduced curve points (resp. of points with r*P = O, the identity being exactly C0 00..00), "
                "accepted strings re-encode to the input, every such point round-trips (bls_sig_accepts_iff, bls_pk_accepts_iff, bls_pk_identity): p prime (Pratt certificate checked by the kernel), p = 3 mod 4, "
-               "completeness of the F_p and F_p^2 square roots of the model, no point with y = 0 on E1 or E2 (-4 and 32 are non-cubes mod p). The X9.62-compressed ECDSA codec is executable model + correspondence (partial).",
+               "completeness of the F_p and F_p^2 square roots of the model, no point with y = 0 on E1 or E2 (-4 and 32 are non-cubes mod p). X9.62-compressed ECDSA public keys on both curves: accepted = canonical 02/03||X encodings of reduced curve points, re-encode to the input, round trip "
+               "(ecdsa_p256_compressed_iff, ecdsa_k256_compressed_iff; no point with y = 0: -7 is not a cube mod the secp256k1 prime, and gcd(x^p - x, x^3 - 3x + b) = 1 for P-256 with x^p computed modulo the cubic in the kernel plus a Bezout identity).",
     level_note="Lean kernel; the subgroup test r*P = O is the model's Jacobian scalar multiplication (not related to the group law by a theorem); known finding F2 (component order vs ZCash) is reported as KNOWN-FINDING",
     assumptions=["BLST and Go standard library arithmetic agree with the model outside the generated catalogue"],
 )
